@@ -308,6 +308,15 @@ def main(argv=None):
             continue
         key = kernel.viol_key(v)
         final_case, final_v, digest = case, v, results[idx]["digest"]
+        red = results[idx].get("reduced_case")
+        if red is not None:
+            # the engine explored several fault plans in this run: continue with the single plan that failed
+            red["_run"] = case.get("_run", {})
+            rr = exec_case(prop, red)
+            hit = [x for x in rr.get("violations", []) if kernel.viol_key(x) == key]
+            if hit:
+                case = final_case = red
+                final_v, digest = hit[0], rr["digest"]
         if not a.no_shrink and n < 6:
             def reproduces(c, key=key):
                 rr = exec_case(prop, c)
